@@ -1080,6 +1080,9 @@ impl<'a> Fx<'a> {
             {
                 if let (Pat::Ident(pi), Ok(pl)) = (&ts.elems[0], self.place(&l.expr)) {
                     let v = ident(&pi.ident.to_string());
+                    if !pl.root_self && pl.local == v {
+                        return bail(format!("`if let Some({}) = {}`: the pattern shadows the place it is taken from", v, v));
+                    }
                     let cur = self.read_place(&pl);
                     let saved_l = self.locals.clone();
                     let saved_a = self.aliases.clone();
@@ -1170,6 +1173,9 @@ impl<'a> Fx<'a> {
                             if let Pat::TupleStruct(ts) = &sa.pat {
                                 if let Some(Pat::Ident(pi)) = ts.elems.first() {
                                     let v = ident(&pi.ident.to_string());
+                                    if !pl.root_self && pl.local == v {
+                                        return bail(format!("`match {} {{ Some({}) .. }}`: the pattern shadows the place it is taken from", v, v));
+                                    }
                                     let cur = self.read_place(&pl);
                                     let saved_l = self.locals.clone();
                                     let saved_a = self.aliases.clone();
